@@ -123,6 +123,12 @@ def cells(tier, seed):
         out.append({"k": "flag", "i": i})
     for legacy in (0, 1):
         out.append({"k": "closure", "legacy": legacy})
+    for first_legacy in (0, 1):
+        for sec_legacy in (0, 1):
+            for prog in range(5):
+                for p0 in range(7):
+                    out.append({"k": "sequence", "first_legacy": first_legacy, "legacy": sec_legacy,
+                                "prog": prog, "pre0": p0})
     return out
 
 
@@ -195,7 +201,30 @@ def run(ctx, cell):
         bad = insecure_reachable(it)
         ctx.check(not bad, "C09:closure:os-touching-function-reachable-in-secure-mode", {"classes": bad})
         ctx.check(not it.environment.isDefined("run"), "C09:closure:run-bound-in-secure-mode")
-        return [len(reachable_values(it)), bad]
+        return [bad]
+    if k == "sequence":
+        # a non-secure interpreter lives (and loads modules) in the same process BEFORE the secure one
+        ctx.reach("closure")
+        pre = ["require IO", "require OS", "require Sys", "bind_native('file_input')", "def leak = file_input",
+               "require IO unqualified", "require OS import [execute]"]
+        unsec = Interpreter(False, bool(cell["first_legacy"]))
+        unsec.setStandardOutput(V.StringOutput())
+        guard(unsec.interpret, pre[cell["pre0"]], "pre")
+        if ctx.choice("second", 2):
+            guard(unsec.interpret, pre[ctx.choice("pre1", len(pre))], "pre")
+        it = Interpreter(True, bool(cell["legacy"]))
+        it.setStandardOutput(V.StringOutput())
+        progs = ["require IO", "require OS", "require IO unqualified", "require OS unqualified", "1"]
+        guard(it.interpret, progs[cell["prog"]], "secure")
+        bad = insecure_reachable(it)
+        ctx.check(not bad, "C09:sequence:secure-interpreter-reaches-os-functions-loaded-by-an-earlier-one",
+                  {"classes": bad})
+        for t in ("IO->file_input('/etc/hostname')", "OS->execute('true')", "file_input('/etc/hostname')",
+                  "IO->read_file('/etc/hostname')", "leak"):
+            o = guard(it.interpret, t, "secure")
+            ctx.check(o.kind != "ok" or o.value.isNull(), "C09:sequence:os-access-from-secure-interpreter[%s]" % t,
+                      {"result": str(o.value)})
+        return [bad]
     raise AssertionError(k)
 
 
